@@ -314,6 +314,16 @@ class Lowerer:
             return ('enum', name)
         if name in self.aliases:
             return self.resolve_alias(self.aliases[name], depth)
+        # alias templates of the polyfills that clang prints unexpanded
+        m = re.match(r'^(remove_reference_t|remove_cv_t|remove_const_t|type_identity_t)<(.*)>$', name)
+        if m:
+            try:
+                inner = self.resolve(T.parse(m.group(2)))
+            except T.TypeError_ as e:
+                raise LowerError(str(e))
+            if m.group(1) == 'remove_reference_t' and inner[0] in ('ref', 'rref'):
+                inner = inner[1]
+            return inner
         # suffix lookup
         suf = '::' + name
         cands = [k for k in self.records if k.endswith(suf)]
